@@ -15,6 +15,7 @@ PLAN = dict(
           "the input (with duplicate keys: one of the occurrences; duplicate keys, unknown keys and non-canonical encodings are otherwise unspecified). sct-list / "
           "sct-boundaries: SerializeSCTList on lists described as runs (size, count) with filler content: error iff an element > 65535 bytes or sum(len+2) > 65535, "
           "otherwise output == reference vector (2-byte total, then 2-byte length + bytes per element) and an independent parser of the output returns exactly the input "
+          "Per element: CertChain.Validate agrees with the presence pattern; AugmentedCertificate.EncodeTo gives the element's canonical map and DecodeAugmentedCertificateFrom reads it back with data behind it, stopping exactly at its end. "
           "elements in order. Non-trivial: chain of >= 2 certificates or an OCSP/SCT blob of >= 24 bytes, i.e. outside the immediate (0-width) CBOR length class "
           "(chain-roundtrip); accepted inputs and must-reject inputs (read-crafted); lists whose sum(len+2) is within +-4 of 65535 or that contain an element >= 65533 bytes "
           "(sct-*). Distinct by fingerprint of the case description."),
